@@ -675,6 +675,7 @@ fn parts(ctx: &Ctx) -> Vec<PartSpec> {
         }
         v.push(PartSpec::new("public-api-d6", json!({"dom": "api", "depth": 6})).budget(150.0));
         v.push(PartSpec::new("zero-sized-elements", json!({"dom": "zst"})));
+        v.push(PartSpec::new("auto-traits", json!({"dom": "auto"})));
     } else {
         for f in 0..N_CONSTRUCT {
             v.push(PartSpec::new(&format!("str-d7-first{}", f), json!({"dom": "str", "depth": 7, "first": f})).budget(3000.0));
@@ -682,6 +683,7 @@ fn parts(ctx: &Ctx) -> Vec<PartSpec> {
         }
         v.push(PartSpec::new("public-api-d8", json!({"dom": "api", "depth": 8})).budget(3000.0));
         v.push(PartSpec::new("zero-sized-elements", json!({"dom": "zst"})));
+        v.push(PartSpec::new("auto-traits", json!({"dom": "auto"})));
     }
     v
 }
@@ -774,6 +776,59 @@ fn zst_part(res: &mut PartResult) {
     res.sample(json!({"case": "Cow::<[Z]>::from_owned(vec![Z; 3]) then drop", "expected": "rejected with a panic, or handled correctly; never a dead process"}));
 }
 
+// ------------------------------------------------------------------ auto traits
+/// "Values can be sent to and dropped on other threads" is decided by the compiler from the two `unsafe impl`s in
+/// cow.rs. What they must NOT allow: an owned slice is a `Vec<E>`, so `Cow<[E]>` may be `Send` only if `E` is `Send`,
+/// and `Sync` only if `E` is `Sync`. Decided at compile time, readable at run time (see C01's SendProbe), so that a
+/// weakened bound is a verdict and not a build error.
+struct AutoProbe<T: ?Sized>(std::marker::PhantomData<T>);
+trait AutoDefault {
+    const IS_SEND: bool = false;
+    const IS_SYNC: bool = false;
+}
+impl<T: ?Sized> AutoDefault for AutoProbe<T> {}
+struct SendProbe<T: ?Sized>(std::marker::PhantomData<T>);
+struct SyncProbe<T: ?Sized>(std::marker::PhantomData<T>);
+trait NotSend {
+    const YES: bool = false;
+}
+impl<T: ?Sized> NotSend for SendProbe<T> {}
+impl<T: ?Sized + Send> SendProbe<T> {
+    const YES: bool = true;
+}
+trait NotSync {
+    const YES: bool = false;
+}
+impl<T: ?Sized> NotSync for SyncProbe<T> {}
+impl<T: ?Sized + Sync> SyncProbe<T> {
+    const YES: bool = true;
+}
+/// Sync but not Send (like a lock guard)
+#[derive(Clone)]
+struct SyncOnly(std::marker::PhantomData<std::sync::MutexGuard<'static, ()>>);
+/// Send but not Sync (like a Cell)
+#[derive(Clone)]
+struct SendOnly(std::cell::Cell<u8>);
+fn auto_traits_part(res: &mut PartResult) {
+    res.engine = "compile-time-decided auto traits of Cow for element types that are only Send / only Sync".into();
+    res.executions = 4;
+    res.transitions = 4;
+    res.states = 1;
+    res.distinct_outcomes = 1;
+    // the probes themselves work
+    assert!(!SendProbe::<SyncOnly>::YES && SyncProbe::<SyncOnly>::YES && SendProbe::<SendOnly>::YES && !SyncProbe::<SendOnly>::YES);
+    if SendProbe::<Cow<'static, [SyncOnly]>>::YES {
+        res.violation("cow-send-without-element-send", "Cow<[E]> is Send for an element type that is Sync but not Send: an owned value (a Vec<E>) can be moved to another thread and its elements dropped there".into(), json!({"auto": "send"}));
+    }
+    if SyncProbe::<Cow<'static, [SendOnly]>>::YES {
+        res.violation("cow-sync-without-element-sync", "Cow<[E]> is Sync for an element type that is Send but not Sync: two threads can read the same elements through a shared reference".into(), json!({"auto": "sync"}));
+    }
+    if !SendProbe::<Cow<'static, str>>::YES || !SyncProbe::<Cow<'static, str>>::YES || !SendProbe::<Cow<'static, [E]>>::YES {
+        res.violation("cow-not-send-or-sync", "Cow<str> / Cow<[E]> for Send + Sync contents must be Send and Sync (values are sent to and dropped on other threads)".into(), json!({"auto": "positive"}));
+    }
+    res.sample(json!({"checked": ["Cow<[SyncOnly]>: !Send", "Cow<[SendOnly]>: !Sync", "Cow<str>: Send + Sync", "Cow<[E]>: Send"]}));
+}
+
 fn run(ctx: &Ctx, spec: &PartSpec) -> PartResult {
     let mut res = PartResult::new(&spec.name, "");
     let depth = spec.arg["depth"].as_u64().unwrap_or(5) as usize;
@@ -782,6 +837,7 @@ fn run(ctx: &Ctx, spec: &PartSpec) -> PartResult {
         "str" => cow_part::<StrDom>(ctx, &mut res, depth, first),
         "slice" => cow_part::<SliceDom>(ctx, &mut res, depth, first),
         "zst" => zst_part(&mut res),
+        "auto" => auto_traits_part(&mut res),
         _ => public_api_part(ctx, &mut res, depth),
     }
     res
@@ -795,7 +851,7 @@ fn main() {
         prop: "C14",
         level: "model_checking",
         rule: "every sequence of the stated depth (first operation = each of the 11 constructions) over: construct {borrowed, From<&T>, Default, a borrowed proper prefix of the static (same address, shorter; for str through std Cow::Borrowed), owned with (len,cap) in (0,0),(0,8),(3,3),(3,16) incl. through the std Cow / Vec conversions, shared Arc alone, shared Arc with an outside strong reference, with an outside strong + weak reference}, and per pool slot (3 slots) clone, read back (deref, as_ref), into_owned, drop, move-to-another-thread-read-and-drop, and for [E] into_owned and clone while the second element clone they make panics (fault injected, caught), plus pairwise ==/cmp/hash; for Cow<str> and for Cow<[E]> with a drop-, clone- and corruption-detecting element type, on the repository's cow.rs compiled into the harness; after every step contents equal the model and Arc strong counts equal the model; at the end every element instance is dropped exactly once and the tracking allocator (no block reuse, poison on free, recorded double/invalid frees) is back to its baseline; plus sequences through the public SharedString/Label/Key API; plus owned vectors of a zero-sized element type (capacity usize::MAX, the value reserved for Arc-backed values) x {drop, clone, into_owned}, each in its own process: rejected by a panic or handled correctly, never a dead process; distinct = distinct (allocations, frees, prune point) profiles",
-        assumptions: &["cow.rs is self-contained, so compiling the same source file into the harness exercises the code the metrics crate compiles", "Send/Sync bound soundness is a type-level claim outside this technique", "From<Cow<T>> for std::borrow::Cow<T> exists only for sized T and cannot be instantiated for str or slices"],
+        assumptions: &["cow.rs is self-contained, so compiling the same source file into the harness exercises the code the metrics crate compiles", "Send/Sync: only the two implications an owned slice needs (Cow<[E]>: Send => E: Send, Sync => E: Sync) are probed; full soundness of the bounds is a type-level claim outside this technique", "From<Cow<T>> for std::borrow::Cow<T> exists only for sized T and cannot be instantiated for str or slices"],
         parts,
         run,
     });
